@@ -1008,6 +1008,11 @@ def rule_meta_sem(ctx: RuleContext, p: Program, rid: str) -> None:
                         elif isinstance(x, ast.Tuple):
                             for y in x.elts:
                                 fl(y)
+                        elif isinstance(x, ast.Name) and x.id not in env and (const_ := next(
+                                (st.value for st in m.tree.body if isinstance(st, (ast.Assign, ast.AnnAssign)) and st.value is not None
+                                 and norm(st.targets[0] if isinstance(st, ast.Assign) else st.target) == x.id
+                                 and isinstance(st.value, (ast.Tuple, ast.BinOp))), None)) is not None:
+                            fl(const_)          # a module-level tuple / union of classes
                         else:
                             alts.append(x)
                     fl(e.args[1])
@@ -1436,3 +1441,152 @@ def rule_find_sem(ctx: RuleContext, p: Program, rid: str, max_len: int = 4) -> N
     if n < 1000 and not problem:
         raise AnalysisError(f'FIND-SEM: only {n} runs evaluated')
     ctx.check(not problem, rid, 'models.internal.interleaving_comments:_CommentClaimer._find_outer', 'outward scan', problem, fo.where, note=f'{n} runs')
+
+
+# ====================================================================== DESC-STATE (C10 / C11 / C18, added in round 7)
+def rule_desc_state(ctx: RuleContext, p: Program, rid: str) -> None:
+    ctx.rule(rid, 'a descriptor (a class with __get__ that is instantiated as a class attribute of the models) is ONE object per model class, shared '
+                  'by every model of that class -- originals and their deep copies, every posting of a ledger.  None of its methods other than '
+                  '__init__ / __set_name__ assigns an attribute of the descriptor itself (and no nested function or lambda it defines does): what '
+                  'belongs to one model is kept on the model (or in a closure created per model), or the most recently used model leaks into the '
+                  'others')
+    n = 0
+    for m in p.modules.values():
+        if m.name.endswith('_test') or 'modelgen' in m.name:
+            continue
+        for c in m.classes:
+            if not any('__get__' in k.attrs for k in c.mro if k.module.name.startswith('autobean_refactor')):
+                continue
+            # what runs per model: the protocol methods, everything they reach through `self.<method>(...)`, and the functions / lambdas
+            # nested in any method (closures handed out, e.g. from __init__, and called per model later)
+            reach = {'__get__', '__set__', '__delete__'}
+            grew = True
+            while grew:
+                grew = False
+                for nm in [*reach, '__init__']:          # a bound method that __init__ hands on as a callback is called per model later
+                    f0 = c.lookup(nm)
+                    if not isinstance(f0, FuncInfo) or not f0.params:
+                        continue
+                    for x in ast.walk(f0.node):
+                        if isinstance(x, ast.Attribute) and isinstance(x.value, ast.Name) and x.value.id == f0.params[0] and x.attr not in reach \
+                                and isinstance(c.lookup(x.attr), FuncInfo):
+                            reach.add(x.attr)
+                            grew = True
+            for fn in [f for f in c.attrs.values() if isinstance(f, FuncInfo)]:
+                if fn.name == '__set_name__' or fn.kind in ('staticmethod', 'classmethod') or not fn.params:
+                    continue
+                n += 1
+                me = fn.params[0]
+                bad = []
+                if fn.name in reach and fn.name != '__init__':
+                    scope: list[ast.AST] = [fn.node]
+                else:
+                    # definition-time methods (__init__, decorator-style registration): only the closures they create run per model
+                    scope = [x for x in ast.walk(fn.node) if isinstance(x, (ast.Lambda, ast.FunctionDef)) and x is not fn.node]
+                for a in [y for sc in scope for y in ast.walk(sc)]:
+                    tgts = a.targets if isinstance(a, ast.Assign) else [a.target] if isinstance(a, (ast.AugAssign, ast.AnnAssign)) else []
+                    for t in tgts:
+                        for x in ast.walk(t):
+                            if isinstance(x, ast.Attribute) and isinstance(x.value, ast.Name) and x.value.id == me and isinstance(x.ctx, ast.Store):
+                                bad.append(norm(a)[:80])
+                    if isinstance(a, ast.Call) and norm(a.func) == 'setattr' and a.args and norm(a.args[0]) == me:
+                        bad.append(norm(a)[:80])
+                ctx.check(not bad, rid, f'{_short(m)}:{fn.qualname}', 'no write to the shared descriptor',
+                          f'{fn.qualname} writes the descriptor object itself (`{bad[0] if bad else ""}`): the descriptor is shared by every instance of the '
+                          f'model class, so what one model stored there is read back for another (a deep copy and its original, two postings)',
+                          fn.where, note='descriptor attributes are written by __init__ only', nontrivial=False)
+    if n < 40:
+        raise AnalysisError(f'DESC-STATE: only {n} descriptor methods found')
+
+
+# ====================================================================== ITER-ONCE (C03 / C05 / C10 / C14, added in round 7)
+_CONSUMERS = {'list', 'tuple', 'set', 'frozenset', 'sorted', 'sum', 'any', 'all', 'max', 'min', 'enumerate', 'zip', 'map', 'filter', 'dict', 'iter',
+              'next', 'reversed', 'itertools.chain', 'len', 'collections.deque', 'deque', 'itertools.islice', 'itertools.groupby'}
+
+
+def rule_iter_once(ctx: RuleContext, p: Program, rid: str) -> None:
+    from ..walker import Walker
+    ctx.rule(rid, 'a parameter declared Iterable / Iterator may be a one-shot iterator (a generator expression, map(), filter(), iter()): on no '
+                  'path through the function is it used again after a use that can consume it (a for loop, a comprehension, list() / set() / '
+                  'sorted() / any() / ..., `in`, *-unpacking, extend / update, or being handed to another function), unless it was first '
+                  'rebound to a materialised copy (`xs = list(xs)`).  The second use sees an empty sequence: tokens are inserted but the item '
+                  'list stays empty, a pre-check passes and the real loop does nothing')
+    n = 0
+    for m in p.modules.values():
+        if m.name.endswith('_test') or 'modelgen' in m.name or 'meta_models' in m.name:
+            continue
+        for fn in p.functions_in(m):
+            if fn.kind == 'overload':
+                continue
+            a = fn.node.args
+            lazy = {x.arg for x in [*a.posonlyargs, *a.args, *a.kwonlyargs] if x.annotation is not None
+                    and any(k in norm(x.annotation) for k in ('Iterable', 'Iterator')) and 'Callable' not in norm(x.annotation)}
+            if not lazy:
+                continue
+            n += 1
+            parents: dict[int, ast.AST] = {}
+            for nd in ast.walk(fn.node):
+                for ch in ast.iter_child_nodes(nd):
+                    parents[id(ch)] = nd
+
+            def use_kind(nm: ast.Name) -> str:
+                par = parents.get(id(nm))
+                if isinstance(par, ast.Compare) and all(isinstance(o, (ast.Is, ast.IsNot)) for o in par.ops):
+                    return 'identity'
+                if isinstance(par, ast.Call) and norm(par.func) == 'isinstance' and par.args and par.args[0] is nm:
+                    return 'identity'
+                if isinstance(par, ast.Attribute) and par.attr not in ('__iter__', '__next__'):
+                    return 'identity'      # a method / attribute of the object itself: not an iteration
+                return 'consume'       # iteration, membership, unpacking, or escape to other code: all may exhaust a one-shot iterator
+
+            bad: list[str] = []
+
+            def transfer(s: Any, ev: tuple) -> Any:
+                if ev[0] == 'eval' and isinstance(ev[1], ast.Name) and isinstance(ev[1].ctx, ast.Load) and ev[1].id in lazy:
+                    nm = ev[1]
+                    if use_kind(nm) == 'identity':
+                        return [s]
+                    if nm.id in s:
+                        msg = f'`{nm.id}` is used again at line {nm.lineno} after a use that can have consumed it'
+                        if msg not in bad:
+                            bad.append(msg)
+                        return [s]
+                    return [s | {nm.id}]
+                if ev[0] == 'store' and isinstance(ev[1], ast.Name) and ev[1].id in lazy:
+                    # rebound: `xs = list(xs)` makes it a real collection; any other rebinding makes it something else altogether
+                    return [s - {ev[1].id}] if ev[1].id in s else [s]
+                return [s]
+
+            # a rebinding to a materialised copy lifts the restriction for the rest of the function: handled by dropping the name from
+            # `lazy` at the store when the value is list(x) / tuple(x) / sorted(x)
+            rebinds = {t.id for st in walk_no_nested(fn.node) if isinstance(st, ast.Assign) and len(st.targets) == 1 and isinstance((t := st.targets[0]), ast.Name)
+                       and t.id in lazy and isinstance(st.value, ast.Call) and norm(st.value.func) in ('list', 'tuple', 'sorted') and st.value.args
+                       and norm(st.value.args[0]) == t.id}
+
+            def transfer2(s: Any, ev: tuple) -> Any:
+                done, mat = s
+                if ev[0] == 'store' and isinstance(ev[1], ast.Name) and ev[1].id in rebinds and isinstance(ev[2], ast.Call) \
+                        and norm(ev[2].func) in ('list', 'tuple', 'sorted'):
+                    return [(done - {ev[1].id}, mat | {ev[1].id})]
+                if ev[0] == 'eval' and isinstance(ev[1], ast.Name) and ev[1].id in mat:
+                    return [s]
+                if ev[0] == 'assume':
+                    t, truth = ev[1], ev[2]
+                    while isinstance(t, ast.UnaryOp) and isinstance(t.op, ast.Not):
+                        t, truth = t.operand, not truth
+                    if isinstance(t, ast.Call) and norm(t.func) == 'isinstance' and len(t.args) == 2 and isinstance(t.args[0], ast.Name) \
+                            and t.args[0].id in lazy:
+                        iterable_test = any(k in norm(t.args[1]) for k in ('Iterable', 'Iterator'))
+                        if iterable_test != truth:
+                            return [(done, mat | {t.args[0].id})]     # on this path the argument is a single value, not an iterable
+                    return [s]
+                if ev[0] == 'store' and isinstance(ev[1], ast.Name) and ev[1].id in lazy and not (isinstance(ev[2], ast.Call) and norm(ev[2].func) in ('list', 'tuple', 'sorted')):
+                    return [(done - {ev[1].id}, mat | {ev[1].id})]       # the name now means something else (a loop variable, a new value)
+                return [(x, mat) for x in transfer(done, ev)]
+
+            Walker(transfer2).run(stmts_no_doc(fn.node.body), [(frozenset(), frozenset())])
+            ctx.check(not bad, rid, f'{_short(m)}:{fn.qualname}', f'iterable parameters {sorted(lazy)}',
+                      f'{fn.qualname}: {"; ".join(bad)}: called with a generator / map / filter object, the later use sees nothing', fn.where,
+                      note=f'{sorted(lazy)} consumed at most once', nontrivial=False)
+    if n < 15:
+        raise AnalysisError(f'ITER-ONCE: only {n} functions with an Iterable parameter found')
